@@ -357,7 +357,7 @@ def imports_stylesheet(rng):
     """The imports family (2.6.2, 5.5, 5.6): modules main(1) imports A(2) then B(3); A imports A1(4).  Template rules with overlapping
     patterns, modes and priorities are spread over the modules; bodies print the rule id, may continue with xsl:apply-imports (never
     inside xsl:for-each), xsl:apply-templates (children; with or without parameters) or call a named template that several modules
-    define.  Import precedence, lowest first: A1 < A < B < main."""
+    define; contiguous runs of rules may live in xsl:include'd files.  Import precedence, lowest first: A1 < A < B < main."""
     P_ = lambda *steps, **kw: path(list(steps), **kw)
     z = {"k": "fin", "neg": False, "m": 0}
     mods = [{"id": 1, "imports": [2, 3]}, {"id": 2, "imports": [4]}, {"id": 3, "imports": []}, {"id": 4, "imports": []}]
@@ -397,6 +397,15 @@ def imports_stylesheet(rng):
         rid += 1
         templates.append({"rid": rid, "hasMatch": False, "match": NONE, "name": "nt", "mode": "", "hasPrio": False, "prio": z, "params": [],
                           "body": [tag("<nt>")], "mod": rng.choice([1, 2, 3, 4])})
+    # xsl:include: some contiguous runs of rules live in included files (same import precedence, position of the include element)
+    ninc = 0
+    for mid in (1, 2, 3, 4):
+        idx = [j for j, t in enumerate(templates) if t["mod"] == mid]
+        if len(idx) >= 2 and rng.random() < 0.4:
+            a = rng.randrange(len(idx)); b = rng.randrange(a, len(idx))
+            ninc += 1
+            for j in idx[a:b + 1]:
+                templates[j]["inc"] = ninc
     rid += 1
     start = [{"i": "apply-templates", "hasSel": False, "sel": NONE, "mode": "", "sorts": [], "params": []},
              {"i": "lre", "name": cps("m"), "attrs": [], "body": [{"i": "apply-templates", "hasSel": True, "sel": P_(step("descendant", T_ANY, abbr=False)), "mode": "m", "sorts": [], "params": []}]}]
@@ -523,11 +532,27 @@ def render_modules(ss):
                 lines.append('<xsl:%s-space elements="%s"/>' % ("strip" if d["strip"] else "preserve", d["name"]))
             for g in ss["gvars"]:
                 lines.append(r_binding("variable", g))
+        # templates of this module in stylesheet order; a contiguous run marked "inc": k lives in the file inc<k>.xsl, pulled in by an
+        # xsl:include at that position (2.6.1: the included rules are treated as if they stood where the xsl:include element is)
+        prev_inc = None
         for t in ss["templates"]:
-            if t.get("mod", 1) == m["id"]:
-                lines.append(r_template(t))
+            if t.get("mod", 1) != m["id"]:
+                continue
+            k = t.get("inc")
+            if k is None:
+                lines.append(r_template(t)); prev_inc = None
+            else:
+                fname = "inc%d.xsl" % k
+                if prev_inc != k:
+                    lines.append('<xsl:include href="%s"/>' % fname)
+                    out[fname] = '<xsl:stylesheet version="1.0" %s>\n' % XSLNS
+                out[fname] += r_template(t) + "\n"
+                prev_inc = k
         lines.append("</xsl:stylesheet>")
         out[module_file(m["id"])] = "\n".join(lines) + "\n"
+    for f in out:
+        if f.startswith("inc"):
+            out[f] += "</xsl:stylesheet>\n"
     return out
 
 
@@ -549,7 +574,7 @@ def spec_stylesheet(ss):
 def spec_form(x):
     """AST as XSLTSem.tla sees it: strings become code point lists where the spec compares them with document strings"""
     if isinstance(x, dict):
-        return {k: spec_form(v) for k, v in x.items() if k not in ("abbr", "prefix", "_type")}
+        return {k: spec_form(v) for k, v in x.items() if k not in ("abbr", "prefix", "_type", "inc")}
     if isinstance(x, list):
         return [spec_form(v) for v in x]
     return x
